@@ -281,6 +281,11 @@ def run_approx(job, acc):
                 yield d
         for gates in space.circuits(1, 2, types=("and", "nor", "not"), consts=("0", "1"), min_gates=2):
             yield space.to_desc(1, gates, consts=("0", "1"), outputs="sinks")
+        # many startpoints: the sampling set must name every one of them however long it gets
+        for n in (9, 10, 11, 12):
+            for t in ("or", "nand") if n > 10 else ("or", "nand", "xor"):
+                names = [f"i{j:02d}" for j in range(n)]
+                yield {"name": "top", "nodes": [[x, "input", [], False] for x in names] + [["g", t, names, True]]}
 
     tmpd = tempfile.mkdtemp(prefix="mcv_c08_")
     copy = os.path.join(tmpd, "instance.cnf")
